@@ -140,4 +140,5 @@ class JWTClaimsRegistry(ClaimsRegistry):
 
 
 def _validate_numeric_time(s: int) -> bool:
-    return isinstance(s, (int, float))
+    # bool is a subclass of int, but a JSON boolean is not a NumericDate
+    return isinstance(s, (int, float)) and not isinstance(s, bool)
